@@ -188,12 +188,21 @@ class Specialiser:
         return self.call_def(self.mod.func(fname), list(args), {}, {})
 
     def call_def(self, fn, args, kwargs, closure_env):
+        home = getattr(fn, "_xmod", None)
+        if home is not None and home is not self.mod and getattr(home, "rel", None) != self.mod.rel:
+            # a function imported back from a private module runs with that module's globals
+            prev = self.mod
+            self.mod = home
+            try:
+                return self.call_def(fn, args, kwargs, closure_env)
+            finally:
+                self.mod = prev
         if self.depth >= self.max_depth:
             raise AnalysisError("E8: call depth exceeded at %s" % getattr(fn, "name", "<lambda>"))
         a = fn.args
         if a.vararg or a.kwarg or a.kwonlyargs:
             raise AnalysisError("E8: unsupported signature of %s" % getattr(fn, "name", "<lambda>"))
-        params = [x.arg for x in a.args]
+        params = [x.arg for x in list(getattr(a, "posonlyargs", [])) + list(a.args)]
         env = dict(closure_env)
         if params and params[0] in closure_env and getattr(self, "_calling_bound", False):
             params = params[1:]
@@ -213,11 +222,19 @@ class Specialiser:
         for f in FLAGS:
             env[f] = False
         env["$val"] = None
+        from .symeval import is_generator
+        gen = is_generator(fn)
+        if gen:
+            env["$yield"] = []          # a generator function is run to completion: the caller gets the yielded values
         self.depth += 1
         try:
             self.block(fn.body, env)
         finally:
             self.depth -= 1
+        if gen:
+            if not isinstance(env.get("$yield"), list):
+                raise AnalysisError("E8: generator %s yields under a condition that is not static" % getattr(fn, "name", "?"))
+            return env["$yield"]
         return env["$val"]
 
     # ------------------------------------------------------ static data of the module
@@ -225,7 +242,7 @@ class Specialiser:
         """a module-level table: evaluated once by the full interpreter (helper calls, named tuples, comprehensions, operator /
         itertools / functools models) and imported as static data; lambdas and local functions in it become closures that
         are specialised where they are applied"""
-        cache = self.__dict__.setdefault("_consts", {})
+        cache = self.__dict__.setdefault("_consts_by_mod", {}).setdefault(self.mod.rel, {})
         if name in cache:
             return cache[name]
         try:
@@ -257,8 +274,11 @@ class Specialiser:
             return NTuple(v.nt_name, v.nt_fields, [self.import_static(x, depth + 1) for x in v], klass=getattr(v, "cls", None))
         if isinstance(v, tuple) and len(v) == 3 and v[0] == "closure":
             return Closure(v[1], {k: self.import_static(x, depth + 1) for k, x in v[2].items() if not k.startswith("$")})
-        if isinstance(v, tuple) and len(v) == 2 and v[0] == "function" and v[1] in self.mod.functions:
-            return Closure(self.mod.functions[v[1]], {})
+        if isinstance(v, tuple) and len(v) in (2, 3) and v[0] == "function":
+            from . import core as _core
+            m_ = _core.module(v[2]) if len(v) == 3 else self.mod
+            if v[1] in m_.functions:
+                return Closure(m_.functions[v[1]], {})
         if isinstance(v, tuple) and len(v) == 2 and v[0] == "builtin":
             return ("builtin", v[1])
         if isinstance(v, tuple) and v and isinstance(v[0], str) and v[0] in ("partial",):
@@ -306,6 +326,11 @@ class Specialiser:
     def stmt(self, st, env):
         if isinstance(st, ast.Expr):
             if isinstance(st.value, ast.Constant):
+                return
+            if isinstance(st.value, ast.Yield):
+                if not isinstance(env.get("$yield"), list):
+                    raise AnalysisError("E8: yield outside a generator function (line %d)" % st.lineno)
+                env["$yield"] = env["$yield"] + [self.eval(st.value.value, env) if st.value.value is not None else None]
                 return
             if isinstance(st.value, ast.Call):
                 f = st.value.func
@@ -432,7 +457,7 @@ class Specialiser:
             return v
         if node.id in self.mod.functions:
             return Closure(self.mod.functions[node.id], {})
-        if node.id in ("abs", "len", "range", "int", "list", "tuple", "all", "any", "sum", "min", "max", "bool", "divmod"):
+        if node.id in ("abs", "len", "range", "int", "list", "tuple", "all", "any", "sum", "min", "max", "bool", "divmod", "enumerate", "zip", "iter"):
             return ("builtin", node.id)
         if node.id in getattr(self.mod, "assigns", {}):
             return self.module_constant(node.id)
@@ -626,6 +651,13 @@ class Specialiser:
             return len(args[0])
         if name == "range" and all(isinstance(a, int) and not isinstance(a, bool) for a in args):
             return list(range(*args))
+        if name == "iter" and len(args) == 1 and isinstance(args[0], (list, tuple)) and not isinstance(args[0], Closure):
+            return list(args[0])
+        if name == "enumerate" and 1 <= len(args) <= 2 and isinstance(args[0], (list, tuple)) and not isinstance(args[0], Closure) \
+                and (len(args) == 1 or (isinstance(args[1], int) and not isinstance(args[1], bool))):
+            return [(i_, x_) for i_, x_ in enumerate(args[0], *(args[1:]))]
+        if name == "zip" and args and all(isinstance(a, (list, tuple)) and not isinstance(a, Closure) for a in args):
+            return [tuple(t_) for t_ in zip(*args)]
         if name in ("list", "tuple") and len(args) == 1 and isinstance(args[0], (list, tuple, range)):
             return list(args[0]) if name == "list" else tuple(args[0])
         if name == "int" and len(args) == 1:
